@@ -158,6 +158,7 @@ def _time_code(v):
 
 
 async def _scenario(loop, case, path):
+    loop.executor_suspends = bool(case.get('exsusp')) or loop.executor_suspends
     from aioslsk.transfer.model import Transfer, TransferDirection
     from aioslsk.transfer import state as st_mod
     from aioslsk.transfer.manager import TransferManager
@@ -1406,7 +1407,8 @@ class C03(Property):
             'method and manager request) x fault present before the request / starting while the request is suspended in '
             'front of the file-system call x file there / only its path, followed by the end of the fault and a second '
             'request (thorough: also a second request arriving while the first is suspended); a fifth of the random '
-            'histories with faults starting and ending at random steps')
+            'histories with faults starting and ending at random steps; a quarter of them with executor calls '
+            '(aiofiles) that suspend their caller for one loop iteration, as with a thread pool (default: atomic)')
     assumptions = [
         'asyncio is cooperative and asyncio.Lock hands over FIFO (CPython 3.12); exercised, not modelled',
         'between two schedule steps the loop is run until nothing more can happen; overlap inside such a step '
@@ -1455,6 +1457,10 @@ class C03(Property):
         # the ones earlier versions of this check drew from the same seed
         frng = random.Random(f'C03-faults-{seed}')
         cases += [_with_faults(c, frng) if i % 5 == 0 else c for i, c in enumerate(hist)]
+        # a quarter of the histories with executor calls (aiofiles) that suspend their caller for a loop iteration, as
+        # with a real thread pool (`SimLoop.executor_suspends`): other tasks run inside every file operation
+        n0 = len(cases) - len(hist)
+        cases = cases[:n0] + [dict(c, exsusp=True) if i % 4 == 1 else c for i, c in enumerate(cases[n0:])]
         return cases
 
     def correspondence(self, seed, tier, model_ok, widen=1):
